@@ -15,7 +15,7 @@ EXTENDS Naturals, FiniteSets, Sequences, TLC
 
 CONSTANTS Reqs,        \* request identifiers (each issued at most once)
           MaxSock,     \* sockets ever created (0 = unbounded)
-          MaxEv,       \* events the accessory may push per socket (0 = unbounded)
+          MaxEv,       \* events the accessory may push per socket
           MaxUnsol,    \* unsolicited responses overall
           Limit,       \* capacity of the connection's semaphore (1 as the library constructs secure connections;
                        \* HomeKitConnection accepts a larger concurrency_limit)
@@ -30,7 +30,10 @@ T_REQUEST == 30 * TPS
 At(d) == IF Timed THEN now + d ELSE 0
 
 NewSock == [st |-> "up", cbs |-> << >>, c2a |-> << >>, a2c |-> << >>, pclose |-> "no",
-            accPend |-> << >>, accHalf |-> 0, evSent |-> 0, evRead |-> 0, lostRun |-> FALSE]
+            accPend |-> << >>, accHalf |-> 0, evSent |-> 0, evRead |-> 0, lostRun |-> FALSE,
+            paused |-> FALSE,      \* the accessory stopped reading this socket (hung)
+            blocked |-> FALSE]     \* the controller's transport holds unflushed bytes: its close completes only when
+                                   \* the socket dies
 IdleReq == [pc |-> "idle", sock |-> 0, wake |-> "none", dl |-> 0, res |-> "none", from |-> 0]
 
 Socks == 1..Len(socks)
@@ -76,11 +79,16 @@ WriteErr(S, r, werr) ==
 CloseTransport(S, s) == IF S.socks[s].st = "up" THEN [S EXCEPT !.socks[s].st = "closing"] ELSE S
 
 \* ------------------------------------------------------------------ callers
-Issue(r, werr) ==
+\* big: a request too large for the socket buffers; written to a socket the accessory does not read it leaves
+\* unflushed bytes in the transport
+Blocks(S, r, big) ==
+    LET s == S.reqs[r].sock IN
+    IF big /\ S.reqs[r].pc = "inflight" /\ s # 0 /\ S.socks[s].paused THEN [S EXCEPT !.socks[s].blocked = TRUE] ELSE S
+Issue(r, werr, big) ==
     /\ reqs[r].pc = "idle"
     /\ LET S == St IN
        IF S.cur = 0 THEN Commit([S EXCEPT !.reqs[r] = [@ EXCEPT !.pc = "done", !.res = "disconnected", !.dl = At(0)]])
-       ELSE IF Cardinality(S.sem) < Limit THEN Commit(WriteErr(SendOrFail([S EXCEPT !.sem = @ \cup {r}, !.reqs[r].sock = S.cur], r), r, werr))
+       ELSE IF Cardinality(S.sem) < Limit THEN Commit(Blocks(WriteErr(SendOrFail([S EXCEPT !.sem = @ \cup {r}, !.reqs[r].sock = S.cur], r), r, werr), r, big))
        ELSE Commit([S EXCEPT !.semQ = Append(@, r), !.reqs[r].pc = "semwait", !.reqs[r].sock = S.cur])
     /\ UNCHANGED <<now, evLog, unsol, wantUp>>
 
@@ -121,8 +129,12 @@ TimerFire(r) ==
     /\ UNCHANGED <<now, socks, cur, sem, semQ, evLog, unsol, wantUp>>
 
 \* ------------------------------------------------------------------ accessory / network
+AccPause(s) ==
+    /\ s \in Socks /\ socks[s].pclose = "no" /\ ~socks[s].paused /\ socks[s].c2a = << >>
+    /\ socks' = [socks EXCEPT ![s].paused = TRUE]
+    /\ UNCHANGED <<now, cur, sem, semQ, reqs, evLog, unsol, wantUp>>
 AccRecv(s) ==
-    /\ s \in Socks /\ socks[s].c2a # << >> /\ socks[s].pclose = "no"
+    /\ s \in Socks /\ socks[s].c2a # << >> /\ socks[s].pclose = "no" /\ ~socks[s].paused
     /\ socks' = [socks EXCEPT ![s].c2a = Tail(@), ![s].accPend = Append(@, Head(socks[s].c2a))]
     /\ UNCHANGED <<now, cur, sem, semQ, reqs, evLog, unsol, wantUp>>
 \* a conformant accessory answers the oldest unanswered request, whole or in two pieces (the second
@@ -137,7 +149,7 @@ AccRespond(s, piece) ==
     /\ UNCHANGED <<now, cur, sem, semQ, reqs, evLog, unsol, wantUp>>
 AccEvent(s) ==
     /\ s \in Socks /\ socks[s].pclose = "no" /\ socks[s].accHalf = 0
-    /\ MaxEv > 0 => socks[s].evSent < MaxEv
+    /\ socks[s].evSent < MaxEv
     /\ socks' = [socks EXCEPT ![s].evSent = @ + 1, ![s].a2c = Append(@, <<"event", socks[s].evSent + 1>>)]
     /\ UNCHANGED <<now, cur, sem, semQ, reqs, evLog, unsol, wantUp>>
 \* An unsolicited response.  On the wire it cannot be told from the response to a request written while
@@ -184,8 +196,10 @@ CtrlRead(s) ==
     /\ UNCHANGED <<now, cur, sem, semQ, unsol, wantUp>>
 
 \* protocol.connection_lost for socket s
+\* (a transport with unflushed bytes reports the loss only once the socket has died)
+LossDue(s) == socks[s].st = "closing" /\ ~socks[s].lostRun /\ (socks[s].blocked => socks[s].pclose # "no")
 LostCallback(s) ==
-    /\ s \in Socks /\ socks[s].st = "closing" /\ ~socks[s].lostRun
+    /\ s \in Socks /\ LossDue(s)
     /\ reqs' = FailPending(reqs, socks, s)
     /\ socks' = [socks EXCEPT ![s].lostRun = TRUE, ![s].st = "dead", ![s].cbs = << >>]
     /\ cur' = IF cur = s THEN 0 ELSE cur
@@ -214,16 +228,16 @@ Deadlines == {reqs[r].dl : r \in {x \in Reqs : TimerDue(x)}}
 InternalEnabled ==
     \/ \E r \in Reqs : reqs[r].wake # "none"
     \/ \E s \in Socks : socks[s].st = "up" /\ socks[s].a2c # << >>
-    \/ \E s \in Socks : socks[s].st = "closing" /\ ~socks[s].lostRun
-    \/ \E s \in Socks : socks[s].c2a # << >> /\ socks[s].pclose = "no"
+    \/ \E s \in Socks : LossDue(s)
+    \/ \E s \in Socks : socks[s].c2a # << >> /\ socks[s].pclose = "no" /\ ~socks[s].paused
 Quiescent == ~InternalEnabled
 
 Init == /\ now = 0 /\ socks = << >> /\ cur = 0 /\ sem = {} /\ semQ = << >>
         /\ reqs = [r \in Reqs |-> IdleReq] /\ evLog = << >> /\ unsol = 0 /\ wantUp = TRUE
 
 Next ==
-    \/ \E r \in Reqs, werr \in BOOLEAN : Issue(r, werr) \/ CallerCancel(r) \/ ReqRun(r, werr) \/ TimerFire(r)
-    \/ \E s \in 1..Len(socks) : AccRecv(s) \/ AccRespond(s, "resp") \/ AccRespond(s, "half") \/ AccRespond(s, "rest") \/ AccEvent(s)
+    \/ \E r \in Reqs, werr \in BOOLEAN : Issue(r, werr, FALSE) \/ Issue(r, werr, TRUE) \/ CallerCancel(r) \/ ReqRun(r, werr) \/ TimerFire(r)
+    \/ \E s \in 1..Len(socks) : AccPause(s) \/ AccRecv(s) \/ AccRespond(s, "resp") \/ AccRespond(s, "half") \/ AccRespond(s, "rest") \/ AccEvent(s)
                                \/ AccUnsolicited(s) \/ PeerClose(s, "fin") \/ PeerClose(s, "rst")
                                \/ CtrlRead(s) \/ LostCallback(s)
     \/ SessionUp \/ UserClose \/ UserOpen
@@ -250,6 +264,10 @@ NoWriteAfterFault ==
 \* no response is ever taken from a socket that is not up
 NoStaleCompletion ==
     [][\A r \in Reqs : (reqs[r].wake # "resp" /\ reqs'[r].wake = "resp") => socks[reqs[r].sock].st = "up"]_vars
+\* the loss of an abandoned socket (however late it is reported) never disturbs the socket currently in use
+StaleLossHarmless ==
+    [][\A s \in 1..Len(socks) : (LossDue(s) /\ socks'[s].lostRun /\ cur # 0 /\ cur # s)
+            => (cur' = cur /\ socks'[cur].st = socks[cur].st /\ socks'[cur].cbs = socks[cur].cbs)]_vars
 \* the semaphore is held by a request that is actually running, or handed to a queued one
 SemConsistent == /\ Cardinality(sem) <= Limit
                  /\ \A r \in sem : reqs[r].pc \in {"inflight", "semwait"} \/ reqs[r].wake # "none"
